@@ -207,6 +207,31 @@ def heldCoef : List (Nat × Int) → Nat → Int
   | (w, d) :: m, k => if m.any (fun t => t.1 == k) then heldCoef m k else if w = k then d else 0
 
 
+
+/-! ### The quadratic part: `QuadTerms::sort_terms` (src/std_constr.cc)
+
+Terms are `(coefficient, var1, var2)`; keys are the *sorted* variable pair, the map is kept in the lexicographic order of
+`std::pair::operator<`, the vectors are always rebuilt from it without zero sums.  Exact arithmetic, as above. -/
+
+def sortPair (a b : Int) : Int × Int := if a < b then (a, b) else (b, a)
+
+def pairLt (a b : Int × Int) : Bool := decide (a.1 < b.1) || (decide (a.1 = b.1) && decide (a.2 < b.2))
+
+def addToP : List ((Int × Int) × Int) → Int × Int → Int → List ((Int × Int) × Int)
+  | [], k, c => [(k, c)]
+  | (w, d) :: m, k, c =>
+    if pairLt k w then (k, c) :: (w, d) :: m
+    else if k = w then (w, d + c) :: m
+    else (w, d) :: addToP m k c
+
+def accumulateQ (acc : List ((Int × Int) × Int)) : List (Int × Int × Int) → List ((Int × Int) × Int)
+  | [] => acc
+  | t :: l => accumulateQ (if t.1 ≠ 0 then addToP acc (sortPair t.2.1 t.2.2) t.1 else acc) l
+
+/-- `QuadTerms::sort_terms()` on a list of `(coefficient, var1, var2)` -/
+def sortQuadTerms (l : List (Int × Int × Int)) : List (Int × Int × Int) :=
+  ((accumulateQ [] l).filter (fun t => t.2 ≠ 0)).map (fun t => (t.2, t.1.1, t.1.2))
+
 /-! ### The calls the ModelAPI receives
 
 Coefficients are integers here, i.e. **exact arithmetic**.  In the code they are `double`s and `var_coef_map[v] += c` rounds,
